@@ -116,6 +116,12 @@ pub(crate) struct Env {
     // TODO: should this be stored separately?
     pub(crate) stack: Stack,
 
+    /// Values popped from the current stack frame during the current
+    /// evaluation step, with the index they had on the value stack.
+    /// If the step fails, these are pushed back so the step can be
+    /// retried exactly.
+    pub(crate) popped_this_step: Vec<(usize, Value)>,
+
     /// The number of execution steps we've evaluated so far.
     pub(crate) ticks: usize,
     /// Stop evaluation if we exceed this number of ticks.
@@ -198,6 +204,7 @@ impl Env {
             prev_call_args: FxHashMap::default(),
             prev_method_call_args: FxHashMap::default(),
             stack: Stack::new(Rc::clone(&user_namespace)),
+            popped_this_step: vec![],
             ticks: 0,
             tick_limit: None,
             stack_limit: None,
@@ -379,7 +386,12 @@ impl Env {
 
     pub(crate) fn pop_value(&mut self) -> Option<Value> {
         let stack_frame = self.stack.0.last_mut().unwrap();
-        stack_frame.evalled_values.pop()
+        let value = stack_frame.evalled_values.pop();
+        if let Some(value) = &value {
+            self.popped_this_step
+                .push((stack_frame.evalled_values.len(), value.clone()));
+        }
+        value
     }
 
     pub(crate) fn current_namespace(&self) -> Rc<RefCell<NamespaceInfo>> {
